@@ -122,14 +122,14 @@ def spec_strategy(heavy: bool):
     from hypothesis import strategies as st
 
     world = st.sampled_from(['thread', 'task'])
-    solver = st.sampled_from(['cg1', 'cg40', 'cg41', 'cg500']) if heavy else st.just('u')
+    solver = st.sampled_from(['cg1', 'cg40', 'cg41', 'cg500']) if heavy else st.sampled_from(['u', 'u', 'cg40', 'cg500'])
     kw = st.fixed_dictionaries(
         {},
         optional={
             'solver': solver,
             'throw': st.booleans(),
             'options': st.sampled_from(['E', 'P', 'Y', 'PY', 'S'] if heavy else ['E', 'P', 'S']),
-            'callback': st.sampled_from(['u', 'u', 'u', 'D', 'R'] if heavy else ['u']),
+            'callback': st.sampled_from(['u', 'u', 'u', 'k0', 'k1', 'D', 'R'] if heavy else ['u', 'u', 'k0', 'k1']),
         },
     ).filter(lambda d: len(d) >= 1)
     small = st.integers(0, 7)
